@@ -46,6 +46,22 @@ CHECKS = {
                 "bcrypt and yaml.v3 are exercised, not modelled. No axioms.",
         "technique": "Coq proof over executable model + differential correspondence check (vm_compute) against the real handlers",
     },
+    "C13": {
+        "text": "Theorems (Props/C13.v): (new_id_is_free) the repaired allocation loop never returns an ID in use while any of the 65,536 IDs is free, for "
+                "any counter value (wrap included) - by an induction over the loop plus a covering lemma for 65,536 successive counter values; "
+                "(ids_unique, id_addresses_holder) an invariant over histories of connects/disconnects of ANY length: every live connection is the "
+                "registry entry of its own ID, hence no two connected users share an ID and an ID resolves to its current holder; the pinned "
+                "allocation is refuted by a computed 65,537-connection history; (roster_converges) for every well-formed history of logins "
+                "(announced or not), announcements and departures, a client that fetched the list and folds the change/delete notifications ends "
+                "with exactly the server's list once nobody is between login and first announcement; (pm_*) private messages reach only the holder "
+                "of the addressed ID or the sender, honour refuse-messages, return the automatic reply. Correspondence: generated wire-mode "
+                "histories (named/1.5 logins, Agreed, SetClientUserInfo, disconnects, user-list fetches, private messages, >65,536-connection "
+                "churn) through the real connection loop; the executable model predicts every client's inbox per step; the oracle folds the "
+                "observed notifications and compares with the fetched lists.",
+        "note": "Trusted: Coq kernel, std++ gmap; in-order delivery assumed (sequential outbox in the harness, real sendTransaction); "
+                "'settled' reading documented in DESIGN.md. No axioms.",
+        "technique": "Coq proof (invariant by induction over histories, loop covering lemma, refinement of client roster fold) + differential correspondence over wire-mode histories",
+    },
     "C16": {
         "text": "Theorems (Props/C16.v) over tables REGENERATED from hotline/access.go on every run: for ALL 2^64 bitmaps and every bit, "
                 "load(save(b)) has bit i iff b has it and i is one of the 40 defined privileges (also as the equation load(save b) = mask b); "
